@@ -3,6 +3,7 @@ The RAII discipline of the evaluator, as the MODEL has it: which guard (`withSco
 `withStack` = Stack_Push_Pop) `run` (Model/Chai/Eval.lean) wraps around which construct, written down per C++ class so that it can be
 compared with the census regenerated from the source (Gen/Raii.lean, extract/e_raii.py).  Props/C09 proves the two tables equal.
 -/
+import ChaiVerif.Model.Chai.State
 namespace ChaiVerif.Chai
 
 /-- classes the evaluator model covers: the guards `run` uses for the corresponding job / node, in the order of the C++ text -/
@@ -47,6 +48,40 @@ def unmodelledGuards : List (String × List String) := [
   ("Map_Pair_AST_Node", []), ("Method_AST_Node", []), ("Ranged_For_AST_Node", ["Scope_Push_Pop", "Scope_Push_Pop"]), ("Switch_AST_Node", ["Scope_Push_Pop"]),
   ("Value_Range_AST_Node", [])
 ]
+
+/-! ### the push / pop primitives themselves
+
+`extract/e_raii.py` reads, for every DEFINITION of a push / pop primitive in dispatchkit.hpp, what the body does to the Stack_Holder, as a
+list of effect names in textual order (`Gen.raiiPrimDefs`).  Here each effect name is given its meaning on the model state, so that
+"the body of `new_scope(Stack_Holder&)` is `St.pushScope`" is a statement the kernel checks (Props/C09 `primitives_are_the_model's`). -/
+
+/-- what an effect name read off the source does to the model state (an unknown name: nothing) -/
+def applyEffect (e : String) (s : St) : St :=
+  if e = "push_scope_data" ∨ e = "emplace_scope" then { s with stacks := modifyLast (· ++ [[]]) s.stacks }
+  else if e = "push_params" ∨ e = "emplace_params" then { s with params := s.params ++ [[]] }
+  else if e = "pop_params" then { s with params := s.params.dropLast }
+  else if e = "pop_scope_data" then { s with stacks := modifyLast List.dropLast s.stacks }
+  else if e = "push_stack" ∨ e = "emplace_stack" then { s with stacks := s.stacks ++ [[[]]] }
+  else if e = "pop_stack" then { s with stacks := s.stacks.dropLast }
+  else if e = "inc_depth" then { s with depth := s.depth + 1 }
+  else if e = "dec_depth" then { s with depth := s.depth - 1 }
+  else if e = "clear_params" then { s with params := if s.depth == 0 then modifyLast (fun _ => []) s.params else s.params }   -- `if (call_depth == 0) call_params.back().clear()`
+  else s
+
+def applyEffects (es : List String) (s : St) : St := es.foldl (fun s e => applyEffect e s) s
+
+/-- the model's primitive for a C++ primitive (or Stack_Holder helper) name -/
+def modelPrimitive (name : String) : Option (St → St) :=
+  if name = "new_scope" then some St.pushScope
+  else if name = "pop_scope" then some St.popScope
+  else if name = "new_stack" then some St.pushStack
+  else if name = "pop_stack" then some St.popStack
+  else if name = "new_function_call" then some St.enterCall
+  else if name = "pop_function_call" then some St.leaveCall
+  else if name = "push_stack_data" then some (fun s => { s with stacks := modifyLast (· ++ [[]]) s.stacks })
+  else if name = "push_stack" then some St.pushStack
+  else if name = "push_call_params" then some (fun s => { s with params := s.params ++ [[]] })
+  else none
 
 def guardsOf (tbl : List (String × List String)) (name : String) : Option (List String) := tbl.lookup name
 
